@@ -84,6 +84,32 @@ MODULES = ["PrimaiteModel.Props.C08", "PrimaiteModel.Props.C08Forward", "Primait
            "PrimaiteModel.Props.C08RouteGen"]
 EXE = "drv_c08"
 
+# ---- round 7b: ICMP translated (Gen/ForwardIcmp + Props/C08IcmpGen) and the loopback rig family -- ONE block of additions ----------
+from harness.extract import forward_icmp as x_forward_icmp  # noqa: E402
+
+MODULES = MODULES + ["PrimaiteModel.Props.C08IcmpGen"]
+
+
+def _extract_icmp(ctx: Ctx):
+    """ICMP.ping / _send_icmp_echo_request / _process_icmp_echo_request (+ RouterICMP), translated; tied by C08_gen_icmp_*"""
+    ctx.extract("ForwardIcmp", x_forward_icmp.emit)
+
+
+def _with_loopback(case: dict, rng) -> dict:
+    return rnet.add_loopback_ops(case, rng)
+
+
+def _count_loopback(ctx: Ctx, case: dict, model: List[str]):
+    """loopback pings of one trace: who pinged, what the model answered, that nothing was sent"""
+    for op, a in zip(case["ops"], model):
+        if op["op"] == "ping" and str(op["dst"]).startswith("127."):
+            kind = case["nodes"][op["src"]]["kind"]
+            ctx.count(f"net-ping-loopback:{kind}:{a.split()[0]}")
+            ctx.count("net-ping-loopback-target:" + ("127.0.0.1" if op["dst"] == "127.0.0.1" else "other-127/8"))
+            if len(a.split()) > 1:
+                ctx.count("net-ping-loopback-with-events")
+# ---- end of round 7b block -----------------------------------------------------------------------------------------------------------
+
 
 # ---------------------------------------------------------------------------------------------- R-route
 def _route_diff(case: dict):
@@ -230,6 +256,8 @@ def _run_net(ctx: Ctx):
     rng = ctx.rng.fork("net")
     for k in range(ctx.scale(220, 2500)):
         cases.append((f"gen:{k}", rnet.gen_case(rng)))
+    lrng = ctx.rng.fork("net-loopback")  # round 7b: own stream, the generated cases themselves stay what they were
+    cases = [(nm, _with_loopback(c, lrng) if nm.startswith("gen:") else c) for nm, c in cases]
     impl_all, rec_all, lines_all, pos_all = [], [], [], []
     for name, case in cases:
         impl, records = rnet.run_impl(case)
@@ -273,6 +301,7 @@ def _run_net(ctx: Ctx):
         ctx.count(f"net-routers:{notes.get('routers')}")
         ctx.count(f"net-routing:{notes.get('routing')}")
         nontrivial = False
+        _count_loopback(ctx, case, model)  # round 7b
         for op, a in zip(case["ops"], model):
             ctx.count("net-op:" + op["op"])
             if op["op"] == "service":
@@ -442,6 +471,7 @@ def run(ctx: Ctx):
         ctx.extract("Forward", x_forward.emit)
         ctx.extract("ForwardArp", x_forward_arp.emit)  # ARP look-ups / add entry / send request / handlers, translated
         ctx.extract("ForwardRoute", x_forward_route.emit)  # Router.process_frame / route_frame, translated into programs
+        _extract_icmp(ctx)  # round 7b
         ctx.extract("Filter", x_filter.emit)  # C06's extractor: firewall entry points (tied by C08_gen_firewall)
         ctx.prove(MODULES, exes=[EXE], clean=False, leanchecker=ctx.thorough)
     ctx.cov["rule"] = ("route cases = (surface in {RouteTable api, Router.from_config}, table, default, interleaved queries), non-trivial "
